@@ -25,3 +25,4 @@ import Spydr.Verilog.Props.C06
 #print axioms Spydr.Verilog.connect_alias_spec
 #print axioms Spydr.Verilog.elab_connection_spec
 #print axioms Spydr.Verilog.write_order_total
+#print axioms Spydr.Verilog.elab_connection_total
